@@ -1,5 +1,5 @@
 """Build steps: cargo (harness against /repo's working tree), probe -> Generated/*.lean, lake, audit."""
-import fcntl, hashlib, os, re, subprocess, time
+import fcntl, hashlib, os, re, shutil, subprocess, time
 
 ROOT = os.path.dirname(os.path.dirname(os.path.abspath(__file__)))
 LEAN = os.path.join(ROOT, "lean")
@@ -77,9 +77,31 @@ def regenerate(bindir):
     return {"ok": True, "changed": changed, "alt_differs": bool(changed and ALT), "sha256": hashlib.sha256(out.encode()).hexdigest()}
 
 
+GOOD_MODEL = os.path.join(ROOT, ".work", "good", "model")
+# scratch-checkout runs of the mutation / harmless-change tools may pin the model to the last driver
+# that a regular run built and audited (the Lean project may be mid-edit while they run); registered
+# checks never set this
+FROZEN = bool(ALT) and os.environ.get("VERIF_FROZEN") == "1" and os.path.exists(GOOD_MODEL)
+
+
+def model_bin():
+    return GOOD_MODEL if FROZEN else os.path.join(LEAN, ".lake", "build", "bin", "model")
+
+
 def lake_build(targets):
+    if FROZEN:
+        return True, "frozen model snapshot", 0.0
     with Lock("lake"):
         rc, out, dt = sh(["lake", "build"] + targets, cwd=LEAN)
+        if rc == 0 and "model" in targets and not ALT:
+            src = os.path.join(LEAN, ".lake", "build", "bin", "model")
+            try:
+                if not os.path.exists(GOOD_MODEL) or os.environ.get("VERIF_SNAPSHOT") == "1":
+                    os.makedirs(os.path.dirname(GOOD_MODEL), exist_ok=True)
+                    shutil.copy2(src, GOOD_MODEL + ".tmp")
+                    os.replace(GOOD_MODEL + ".tmp", GOOD_MODEL)
+            except OSError:
+                pass
     return rc == 0, out, dt
 
 
